@@ -356,12 +356,14 @@ def check_size_at(rep, prog):
     rep.saw_function(m.rel + ':_size_at')
     generic.rule_ret(rep, m, fn)
     arms = {}
-    node = next((n for n in fn.body if isinstance(n, ast.If)), None)
-    while node is not None:
-        t = node.test
-        if isinstance(t, ast.Compare) and ast.unparse(t.left) == 'size_function' and isinstance(t.comparators[0], ast.Constant):
-            arms[t.comparators[0].value] = node.body
-        node = node.orelse[0] if (len(node.orelse) == 1 and isinstance(node.orelse[0], ast.If)) else None
+    # an elif chain, or a sequence of `if size_function == ...: return ...` statements (each arm returns, so both forms are the same)
+    for first in [n for n in fn.body if isinstance(n, ast.If)]:
+        node = first
+        while node is not None:
+            t = node.test
+            if isinstance(t, ast.Compare) and ast.unparse(t.left) == 'size_function' and isinstance(t.comparators[0], ast.Constant):
+                arms.setdefault(t.comparators[0].value, node.body)
+            node = node.orelse[0] if (len(node.orelse) == 1 and isinstance(node.orelse[0], ast.If)) else None
     for need in ('constant', 'exponential', 'linear'):
         rep.ob('R-EXH', 'DemesUtil._size_at dispatch', need in arms, 'arms: %s' % sorted(arms), m.rel, fn.lineno, what='size function %r is handled' % need)
     # end-point identities of each arm
